@@ -21,7 +21,7 @@ CHECKS = {
         note='Grid points only (<= 4-decimal parameters); ConvergenceError counts as indeterminate. PC: household-side series. A RunMethod2 give-up within its own 100-sweep cap is a violation only where a reference iteration of the same scheme settles within 60 sweeps.'),
     'C13': dict(
         category='exploration', design_ref='DESIGN.md section 3, C13',
-        technique='bounded-exhaustive enumeration of (expression, renaming map) pairs for the three public utilities and for their callers (Term/Equation/EquationBlock.ReplaceTokensFromLookup, the reduction's alias substitution, the qualification step of Sector._CreateFinalEquations); independent regex scanner + evaluation under renamed environments',
+        technique='bounded-exhaustive enumeration of (expression, renaming map) pairs for the three public utilities and for their callers (Term/Equation/EquationBlock.ReplaceTokensFromLookup, the alias substitution of the reduction, the qualification step of Sector._CreateFinalEquations); independent regex scanner + evaluation under renamed environments',
         text='Several million pairs: all expressions of <= 3 tokens over the full atom alphabet and <= 5 tokens over a reduced one, compact and padded, x all maps of size <= 2 (swaps, chains, prefixes, absent names, placeholder-shaped targets).',
         note='Trusted: the 10-line scanner regex and Python eval. Output spacing is free; comparison is token-wise.'),
     'C16': dict(
